@@ -826,14 +826,13 @@ class ParserField:
             # no mode
             return no_input if isinstance(no_input, bool) else False
 
-        if isinstance(no_input, (str, list, set, tuple)):
-            return options.mode in no_input
-
-        if no_input is True:
+        if self.mode and options.mode not in self.mode:
+            # a field is neither input nor output in a mode it does not support,
+            # whatever no_input says about the modes it does support
             return True
 
-        if self.mode:
-            return options.mode not in self.mode
+        if isinstance(no_input, (str, list, set, tuple)):
+            return options.mode in no_input
 
         return bool(no_input)
 
@@ -846,13 +845,13 @@ class ParserField:
             return True
         if not options.mode:
             return False
+        if self.mode and options.mode not in self.mode:
+            return True
         if callable(self.no_input):
             return False
         if isinstance(self.no_input, (str, list, set, tuple)):
             if options.mode in self.no_input:
                 return True
-        if self.mode:
-            return options.mode not in self.mode
         return False
 
     def always_no_output(self, options: Options):
@@ -861,13 +860,13 @@ class ParserField:
             return True
         if not options.mode:
             return False
+        if self.mode and options.mode not in self.mode:
+            return True
         if callable(self.no_output):
             return False
         if isinstance(self.no_output, (str, list, set, tuple)):
             if options.mode in self.no_output:
                 return True
-        if self.mode:
-            return options.mode not in self.mode
         return False
 
     def is_no_output(self, value, options: Options):
@@ -883,14 +882,11 @@ class ParserField:
             # no mode
             return no_output if isinstance(no_output, bool) else False
 
-        if isinstance(no_output, (str, list, set, tuple)):
-            return options.mode in no_output
-
-        if no_output is True:
+        if self.mode and options.mode not in self.mode:
             return True
 
-        if self.mode:
-            return options.mode not in self.mode
+        if isinstance(no_output, (str, list, set, tuple)):
+            return options.mode in no_output
 
         return bool(no_output)
 
